@@ -738,3 +738,19 @@ def fam_dde_edges_fixed():
         ("F10x:ring", mk(3, lambda fp: [E('a0/li/x', 'a1/li/u', fp(), delay=F(1, 2)), E('a1/li/x', 'a2/li/u', fp(), delay=F(1)),
                                         E('a2/li/x', 'a0/li/u', fp(), delay=F(3, 4))], "ring, three delays")),
     ]
+
+
+def fam_dde_pernode():
+    """C10: several structurally identical nodes with an operator-level past() term; the delay parameter is the same /
+    differs between the nodes"""
+    out = []
+    for name, taus, notation in (('same', [F(1, 2), F(1, 2)], 'past'), ('diff', [F(1, 2), F(1)], 'past'),
+                                 ('diff3', [F(1), F(1, 2), F(3, 2)], 'call')):
+        fp = FP()
+        e1 = X.add(X.mul(X.neg(V('k')), V('x')), X.mul(V('g'), X.call('tanh', X.past('x', V('tau')))))
+        op = OpSpec('dd', [('x', 'de', e1)], {'x': ('state', fp()), 'k': ('const', fp()), 'g': ('const', fp()),
+                                              'tau': ('const', F(1, 2))}, output='x', style={'past': notation})
+        nodes = {f"n{i}": NodeSpec(['dd'], {('dd', 'x'): fp(), ('dd', 'k'): fp(), ('dd', 'tau'): t})
+                 for i, t in enumerate(taus)}
+        out.append((f"F10x:pernode-delay-{name}", ModelSpec('m', {'dd': op}, nodes, [], note=f"per-node delays {taus}")))
+    return out
